@@ -9,7 +9,7 @@ RULE = ("Typed grammar-directed programs (all 8 comparison operators in ident-li
         "orientation, not/and/or trees with minimal and redundant parentheses, else-if chains, nesting, missing "
         "else) evaluated on inputs at and next to every literal boundary, plus an enumerated catalogue "
         "(operator x orientation x boundary triple; all boolean trees of depth<=2 over 3 atoms x 8 truth "
-        "assignments; all conditional skeletons with <=3 returns). Oracle: independent reference interpreter. "
+        "assignments; all conditional skeletons with <=3 returns). Oracle: independent reference interpreter. A further part pushes pairs of NEIGHBOUR programs (identifier vs string of the same text, number vs string of the same spelling, ==-equal literals of other type, blanks / case inside string operands) through recompile() of a live evaluator and checks the routing of the new program. "
         "Non-trivial = program with a conditional whose inputs reach >=2 different outcomes; distinct by "
         "(program text, outcome vector).")
 ASSUMPTIONS = [
@@ -54,7 +54,12 @@ def _after(case):
 
 
 def judge_case(record):
-    return judge(record["case"])["viol"]
+    c = record["case"]
+    if "pick" in c:
+        from . import c11
+
+        return c11.judge_neighbours(c)["viol"]
+    return judge(c)["viol"]
 
 
 # --------------------------------------------------------------------------- catalogue
@@ -261,6 +266,11 @@ def run(ctx, rec):
             return
     n = ctx.n(500, 2500)
     runner.hyp_run(ctx, rec, "generated", gen.program_cases(n_inputs=(6, 12)), judge, n)
+    if rec.violations:
+        return
+    from . import c11
+
+    runner.hyp_run(ctx, rec, "neighbour-programs-through-recompile", c11.neighbour_cases(), c11.judge_neighbours, ctx.n(100, 600))
     if rec.violations:
         return
     runner.hyp_run(ctx, rec, "generated-deep",
